@@ -61,6 +61,43 @@ CLAIMED = {
         "Trusted: Coq kernel; the hand-written model of the transformer/f-string builders (validated by correspondence: messages compared as text).",
         "DESIGN.md section 5 C08",
     ),
+    "C09": (
+        "Coq theorems over token callbacks regenerated from source and a hand model of AhbExpressionTransformer (selection of the first fulfilled part) + correspondence and split/selection oracle",
+        "Props/C09.v: every ASCII letter-case variant of the six indicators is normalised to its canonical indicator (over the regenerated callbacks: the obligation the original "
+        "lower-case prefix-operator defect breaks); select returns the first fulfilled part (marked conditional iff several parts) else the last; the reported indicator, outcome, hints, "
+        "format expression and format result are the part's own; a bare indicator counts as fulfilled and unconditional. evaluate_ahb_expression_tree is compared with the model end to end.",
+        "Trusted: Coq kernel, translator (Gen_enums), hand model of the transformer. Partial: the string-level split (AHB scanner regexes) is checked by the oracle against assembled parts, not yet by a theorem.",
+        "DESIGN.md section 5 C09",
+    ),
+    "C13": (
+        "Coq proof (nested induction over AHB trees) about a hand model of the validation recursion using mapping tables regenerated from source + correspondence on random AHB trees",
+        "Props/C13.v: a successful run is a document-order traversal reporting each node once and nothing below a forbidden node (Visit); each segment-level status is its own status "
+        "(documented mapping) combined with the parent's; table facts (below optional nothing required, below required own status kept, FILLED/EMPTY suffix, UNKNOWN under MUSS/prefix aborts, "
+        "the mapping never hits an unbound local) over map_rvv/combine_rvv regenerated from validation.py. For every tree, every evaluation of node expressions, both flags.",
+        "Trusted: Coq kernel, translator (Gen_valmaps, validated on the whole finite domain every run), hand model of validate_* (validated by correspondence). asyncio.gather is modelled as in-order execution here (schedules: C12/C15).",
+        "DESIGN.md section 5 C13",
+    ),
+    "C14": (
+        "Coq proof by a generic simulation theorem over the validation model + discharge of its hypothesis for the concrete AHB-evaluation model + correspondence and the equation as oracle",
+        "Props/C14.v: validate(t, flag) = validate(rewrite SOLL->Muss/Kann t, any flag) for every AHB tree (groups, segments, free-text elements, pool entries at any depth), for every "
+        "evaluation that changes nothing but the indicator under rewriting (C14_generic) and concretely for the token-level rewriting on the AHB evaluation model (C14_true/C14_false).",
+        "Trusted: as C13. The hypothesis that the invalid-expression reason text does not mention the indicator is stated explicitly.",
+        "DESIGN.md section 5 C14",
+    ),
+    "C16": (
+        "Coq proof by the same simulation theorem (relation: equal rows except at the replaced nodes) + correspondence + 'replace by Kann' oracle",
+        "Props/C16.v: replacing the invalid expression of any subset of nodes by 'Kann' leaves every other reported row identical, keeps positions and exceptions, and the node itself is IS_OPTIONAL with the reason as hint; "
+        "invalid pool entries count as selectable (same offered values).",
+        "Trusted: as C13.",
+        "DESIGN.md section 5 C16",
+    ),
+    "C17": (
+        "Coq proof about the value-pool function of the validation model + correspondence on random pools x inputs x parent statuses",
+        "Props/C17.v: for a non-forbidden segment and pairwise different qualifiers the offered values are exactly the admissible entries in pool order (single-entry pools offer their entry); the judgement of the "
+        "input by the offered values (accepted / flagged and empty with hint / empty); nothing offered or forbidden segment -> forbidden.",
+        "Trusted: as C13; dict semantics of possible_values modelled as an insertion-ordered association list.",
+        "DESIGN.md section 5 C17",
+    ),
 }
 
 PENDING_REASON = "not yet built in this round: the Coq model/theorems for this property are under construction (see DESIGN.md section 11); no check is claimed until it exists"
